@@ -32,27 +32,28 @@ Definition is_anomaly (o : observed) : bool := match o with ObsAnomaly _ => true
 
 (* the fragment has none of Scope.v's deviating binder forms, so the switches are immaterial here *)
 Definition ccase_model_ok (c : ccase) : bool :=
-  let loose := observe (ps_run sdev_off false (cc_fuel c) (cc_prog c)) in
-  let strict := observe (ps_run sdev_off true (cc_fuel c) (cc_prog c)) in
+  let loose := observe (ps_run sdev_off false false (cc_fuel c) (cc_prog c)) in
+  let strict := observe (ps_run sdev_off true false (cc_fuel c) (cc_prog c)) in
   obs_eqb loose (cc_ps c)
   && obs_eqb (observe (py_run (cc_fuel c) (cc_prog c))) (cc_py c)
   && (is_anomaly strict || obs_eqb strict loose).
 
 Definition ccase_spec_ok (c : ccase) : bool := obs_eqb (cc_ps c) (cc_py c).
 
-(* a Spec failure is attributed to the event at which the strict run stopped (the framework separately requires the
-   loose Model to reproduce the observation; a strict run that does not stop equals the reference: C03_closure_equiv_partial) *)
+(* a Spec failure is attributed to the first event, other than event 3, at which a strict run stops: event 3 (var_names differ
+   from the free variables on a visible name) is mostly the harmless extra capture of an enclosing variable named like a
+   parameter of a nested function, after which the code goes on and may still reach one of the real events - so the
+   attribution uses the strict run that does not stop at event 3.  (The framework separately requires the loose Model to
+   reproduce the observation; a strict run that stops nowhere equals the reference: C03_closure_equiv_partial.) *)
 Definition ccase_attrib (c : ccase) : list nat :=
-  match observe (ps_run sdev_off true (cc_fuel c) (cc_prog c)) with
+  match observe (ps_run sdev_off true true (cc_fuel c) (cc_prog c)) with
   | ObsAnomaly 1 => [300%nat]      (* D300: dynamic-scope capture *)
   | ObsAnomaly 2 => [301%nat]      (* D301: private copy of an unassigned captured variable *)
   | ObsAnomaly 4 => [302%nat]      (* D302: a declared-global name that only the builtins define *)
   | ObsAnomaly 5 => [303%nat]      (* D303: an unassigned plain local named like a builtin reads the builtin *)
-  (* code 3 (var_names differ from the free variables on a visible name; mostly the harmless extra capture of an
-     enclosing variable named like a parameter of a nested function) is not attributed to any finding *)
   | _ => []
   end.
 
 Definition ccase_explain (c : ccase) :=
-  (observe (ps_run sdev_off false (cc_fuel c) (cc_prog c)), observe (ps_run sdev_off true (cc_fuel c) (cc_prog c)),
+  (observe (ps_run sdev_off false false (cc_fuel c) (cc_prog c)), observe (ps_run sdev_off true false (cc_fuel c) (cc_prog c)), observe (ps_run sdev_off true true (cc_fuel c) (cc_prog c)),
    observe (py_run (cc_fuel c) (cc_prog c))).
